@@ -142,13 +142,15 @@ func newC02Env(c *core.Ctx, dsse bool) (*c02Env, error) {
 		b, _ := json.Marshal(d)
 		put("tampered-after-signing-A", name(e.fn["A"]), b)
 	}
+	// links that never count report other artifacts than the honest ones (they must not be looked at)
+	other := gen.NewLink("s", gen.Artifacts(map[string]string{"in": "something else"}), gen.Artifacts(map[string]string{"out": "something else", "extra": "x"}))
 	{
-		md, _ := gen.NewMeta(link, dsse)
+		md, _ := gen.NewMeta(other, dsse)
 		put("unsigned", "s.0a0b0c0d.link", dumpBytes(c, md))
 	}
 	for kind, f := range map[string]string{"signed-by-unauthorized-key-U": "U", "signed-by-key-of-earlier-step-F": "F", "signed-by-key-of-later-step-G": "G", "cert-expired-chain-E": "E", "cert-foreign-root-H": "H", "cert-failing-constraint-I": "I"} {
-		_, b := signed(e.fn[f])
-		put(kind, name(e.fn[f]), b)
+		md, _ := gen.SignedMeta(other, dsse, e.fn[f].SigningKey())
+		put(kind, name(e.fn[f]), dumpBytes(c, md))
 	}
 	put("copy-of-A-under-another-name", "s.deadbeef.link", aBytes)
 	forged := func(src []byte, withCert string) []byte {
@@ -213,6 +215,8 @@ func newC02Env(c *core.Ctx, dsse bool) (*c02Env, error) {
 
 // layout: steps t (earlier, key F), s (the step under test), u (later, key G)
 func (e *c02Env) layout(mode string, threshold int) intoto.Layout {
+	noRoots := strings.HasSuffix(mode, "-noroots")
+	mode = strings.TrimSuffix(mode, "-noroots")
 	allow := [][]string{{"ALLOW", "*"}}
 	var pub []string
 	var cons []intoto.CertificateConstraint
@@ -239,6 +243,10 @@ func (e *c02Env) layout(mode string, threshold int) intoto.Layout {
 	delete(l.Keys, e.fn["U"].Pub.KeyID) // U is not even defined in the layout
 	l.RootCas = map[string]intoto.Key{e.root.Key.KeyID: e.root.Key}
 	l.IntermediateCas = map[string]intoto.Key{e.inter.Key.KeyID: e.inter.Key}
+	if noRoots {
+		// a layout that names no CA at all: no certificate can chain to "a layout root"
+		l.RootCas, l.IntermediateCas = map[string]intoto.Key{}, map[string]intoto.Key{}
+	}
 	return l
 }
 
@@ -275,6 +283,9 @@ func runC02(c *core.Ctx) {
 	}
 	acc, rej := int64(0), int64(0)
 	cn := 0
+	rundir := filepath.Join(c.WorkDir, "c02-rundir")
+	os.MkdirAll(rundir, 0755)
+	os.WriteFile(filepath.Join(rundir, "keep"), []byte("x"), 0644)
 	for _, dsse := range []bool{false, true} {
 		env, err := newC02Env(c, dsse)
 		if err != nil {
@@ -284,9 +295,13 @@ func runC02(c *core.Ctx) {
 		tLink, _ := gen.SignedMeta(c02Link("t"), dsse, env.fn["F"].SigningKey())
 		uLink, _ := gen.SignedMeta(c02Link("u"), dsse, env.fn["G"].SigningKey())
 		tLinkC, _ := gen.SignedMeta(c02Link("t"), dsse, env.fn["C"].SigningKey())
-		for _, mode := range []string{"keys", "constraints", "mixed"} {
+		for _, fullMode := range []string{"keys", "constraints", "mixed", "constraints-noroots", "mixed-noroots"} {
+			mode, noRoots := strings.TrimSuffix(fullMode, "-noroots"), strings.HasSuffix(fullMode, "-noroots")
 			for threshold := 1; threshold <= 3; threshold++ {
-				layout := env.layout(mode, threshold)
+				if noRoots && threshold == 3 && c.Quick() {
+					continue
+				}
+				layout := env.layout(fullMode, threshold)
 				layoutMD, err := gen.SignedMeta(layout, dsse, owner.Priv)
 				if err != nil {
 					c.Inconclusive("harness: cannot sign layout")
@@ -316,6 +331,9 @@ func runC02(c *core.Ctx) {
 							abstain = true
 						}
 						if k.counts != "" && (mode == "mixed" || (mode == "keys" && k.route == "key") || (mode == "constraints" && k.route == "cert")) {
+							if noRoots && k.route == "cert" {
+								continue
+							}
 							if dsse && k.route == "cert" {
 								needsCert = true
 								continue
@@ -326,7 +344,7 @@ func runC02(c *core.Ctx) {
 					if clash {
 						continue
 					}
-					id := fmt.Sprintf("pop/dsse=%v/%s/T%d/%d:%s", dsse, mode, threshold, pi, strings.Join(kinds, "+"))
+					id := fmt.Sprintf("pop/dsse=%v/%s/T%d/%d:%s", dsse, fullMode, threshold, pi, strings.Join(kinds, "+"))
 					if !c.Want(id) {
 						continue
 					}
@@ -340,13 +358,14 @@ func runC02(c *core.Ctx) {
 						os.WriteFile(filepath.Join(dir, env.names[k.name]), env.files[k.name], 0644)
 					}
 					wantOK := len(counted) >= threshold
-					detail := map[string]any{"population": kinds, "threshold": threshold, "authorization": mode, "dsse": dsse, "expected_distinct_functionaries": len(counted)}
+					detail := map[string]any{"population": kinds, "threshold": threshold, "authorization": fullMode, "dsse": dsse, "expected_distinct_functionaries": len(counted)}
 					c.Begin(id)
 					reps := 1
 					if len(pop) >= 2 {
 						reps = 8 // map iteration order
 					}
 					verdicts := map[bool]int{}
+					byEntry := map[bool]map[bool]int{false: {}, true: {}}
 					var lastErr string
 					for rep := 0; rep < reps; rep++ {
 						args := VerifyArgs{Layout: layoutMD, Keys: gen.KeyMap(owner), LinkDir: dir, Cwd: c.WorkDir}
@@ -358,10 +377,15 @@ func runC02(c *core.Ctx) {
 							// the caller supplies the intermediate of a foreign chain as additional intermediate
 							args.Intermediates = [][]byte{[]byte(env.foreignInter.PEM)}
 						}
+						if (rep/4+cn)%2 == 1 {
+							// the other entry point counts in the same way
+							args.RunDir = rundir
+						}
 						obs := Verify(args)
 						c.Eval(1)
 						reportTrace(c, id, obs, detail)
 						verdicts[obs.Accepted()]++
+						byEntry[args.RunDir != ""][obs.Accepted()]++
 						if !obs.Accepted() {
 							lastErr = errStr(obs.Err)
 						}
@@ -372,18 +396,20 @@ func runC02(c *core.Ctx) {
 					detail["accepted_rejected"] = fmt.Sprintf("%d/%d", verdicts[true], verdicts[false])
 					detail["error"] = lastErr
 					if len(pop) >= 1 {
-						c.Class(kindsKey(kinds), threshold, mode, dsse)
+						c.Class(kindsKey(kinds), threshold, fullMode, dsse)
 					}
 					popClass := classOfPop(kinds)
 					switch {
 					case abstain:
 						c.Inconclusive("population with a link whose counting the statement does not decide")
+					case verdicts[true] > 0 && verdicts[false] > 0 && len(byEntry[false]) == 1 && len(byEntry[true]) == 1:
+						c.Violation(fmt.Sprintf("InTotoVerify and InTotoVerifyWithDirectory count differently (%s, threshold %d, %s, dsse=%v)", popClass, threshold, fullMode, dsse), id, detail)
 					case verdicts[true] > 0 && verdicts[false] > 0:
-						c.Violation(fmt.Sprintf("verdict depends on iteration order (%s, threshold %d, %s, dsse=%v)", popClass, threshold, mode, dsse), id, detail)
+						c.Violation(fmt.Sprintf("verdict depends on iteration order (%s, threshold %d, %s, dsse=%v)", popClass, threshold, fullMode, dsse), id, detail)
 					case !wantOK && verdicts[true] > 0:
-						c.Violation(fmt.Sprintf("threshold %d met by %d distinct authorized functionaries (%s, %s, dsse=%v)", threshold, len(counted), popClass, mode, dsse), id, detail)
+						c.Violation(fmt.Sprintf("threshold %d met by %d distinct authorized functionaries (%s, %s, dsse=%v)", threshold, len(counted), popClass, fullMode, dsse), id, detail)
 					case wantOK && verdicts[false] > 0:
-						c.Violation(fmt.Sprintf("%d honest links from distinct authorized functionaries do not satisfy threshold %d (%s, %s, dsse=%v)", len(counted), threshold, popClass, mode, dsse), id, detail)
+						c.Violation(fmt.Sprintf("%d honest links from distinct authorized functionaries do not satisfy threshold %d (%s, %s, dsse=%v)", len(counted), threshold, popClass, fullMode, dsse), id, detail)
 					case !wantOK && needsCert && len(counted)+certCount(pop, mode) >= threshold:
 						// DSSE: honest certificate-signed links cannot be counted (the envelope has no place for the certificate)
 						c.Violation(fmt.Sprintf("honest certificate-signed DSSE links are not counted: threshold %d not met although enough distinct authorized functionaries signed (%s)", threshold, mode), id, detail)
@@ -547,7 +573,7 @@ func init() {
 	core.Register(&core.Property{
 		ID:    "C02",
 		Level: "exploration",
-		Rule: "layout with steps t (earlier), s (under test), u (later); step s with threshold 1..3 and authorization by {2 listed keys, 1 certificate constraint + layout root/intermediate CA, both}; link-file populations for s = all multisets of size<=2 (quick) / <=3 (thorough, + 2000 random ones of size 4-8) over a catalogue of 22 link kinds (honest key A/B, honest certificate C / D via intermediate, tampered, unsigned, unauthorized key, key of an earlier / a later step, copy under another name, copy with forged key-id entry without / with the honest certificate, relabelled copy (forged id with the honest signature value and certificate), junk signatures before/after, expired / foreign-root / constraint-failing certificate, garbage, truncated JSON, link of another step renamed) x 2 wrappers; the earlier step t also admits certificate functionary C (its verdict must not leak into s); every population of >=2 files is verified 8 times (map order), half of the verifications with the intermediate of a foreign chain passed as caller-supplied intermediate, half with a (non-matching) parameter dictionary; VerifyLinkSignatureThesholds is also called directly and its map inspected; finally a sequence of two layouts that define one key id with different key material. Oracle: expected number of distinct counting functionaries known by construction. " +
+		Rule: "layout with steps t (earlier), s (under test), u (later); step s with threshold 1..3 and authorization by {2 listed keys, 1 certificate constraint + layout root/intermediate CA, both}; link-file populations for s = all multisets of size<=2 (quick) / <=3 (thorough, + 2000 random ones of size 4-8) over a catalogue of 22 link kinds (honest key A/B, honest certificate C / D via intermediate, tampered, unsigned, unauthorized key, key of an earlier / a later step, copy under another name, copy with forged key-id entry without / with the honest certificate, relabelled copy (forged id with the honest signature value and certificate), junk signatures before/after, expired / foreign-root / constraint-failing certificate, garbage, truncated JSON, link of another step renamed) x 2 wrappers; the earlier step t also admits certificate functionary C (its verdict must not leak into s); every population of >=2 files is verified 8 times (map order), half of the verifications with the intermediate of a foreign chain passed as caller-supplied intermediate, half with a (non-matching) parameter dictionary, half through InTotoVerifyWithDirectory; the same populations against layouts that name no CA at all (no certificate counts); links that never count report other artifacts than the honest ones; VerifyLinkSignatureThesholds is also called directly and its map inspected; finally a sequence of two layouts that define one key id with different key material. Oracle: expected number of distinct counting functionaries known by construction. " +
 			"non-trivial = at least one file for the step; distinct = (kind multiset, threshold, authorization, wrapper)",
 		Assumptions: []string{"a junk signature entry that carries the honest signer's own key id before the honest entry is not judged", "a link that an authorized functionary signed for ANOTHER step, renamed to this step's file name, is not judged (observed: it is counted; the statement only speaks about who signed)", "all links of a case report identical artifacts (agreement is C05's business)"},
 		Workers:     func(string) int { return 16 },
